@@ -162,4 +162,181 @@ theorem syncSubnet_eq_spec (size : UInt64) (comm : List UInt64) (v sn : UInt64)
     have h2 : (sn.toNat == i / (size.toNat / 4)) = false := by simpa using this
     rw [h1, h2]
 
+/-! ## Decision logic, per validator
+
+For every validator `X` with model `validateX`, specification conditions `Spec.XConds` and well-formedness
+assumptions `WFX` (stated as structures, each field documented):
+
+* `X_accept_iff_all_conditions`  ACCEPT ⇔ every condition of the p2p specification holds
+* `X_violated_never_accept`      a violated condition ⇒ never ACCEPT
+* `X_timing_failures_ignore`     not all conditions hold, but every failing one carries the `[IGNORE]` tag
+                                 (unknown parent/target, duplicate, outside the clock window, not in the finalized
+                                 subtree …) ⇒ the verdict is IGNORE, never REJECT
+* `X_marks_only_on_accept`       any `Mark*` call ⇒ the verdict is ACCEPT
+-/
+
+/-- generic: from `accept_iff`, a violated condition excludes ACCEPT -/
+theorem never_accept_of_iff {v : Verdict} {cs : List Cond} (h : v = .ACCEPT ↔ allHold cs = true)
+    {c : Cond} (hc : c ∈ cs) (hv : c.holds = false) : v ≠ .ACCEPT := by
+  intro ha
+  have := allHold_mem (h.mp ha) hc
+  rw [hv] at this; exact Bool.noConfusion this
+
+/-! ### beacon_block -/
+
+/-- `SLOTS_PER_EPOCH ≠ 0`; the finalized epoch's start slot is representable (it is a real block's epoch) -/
+structure WFBlock (i : BlockIn) : Prop where
+  spe : i.spe ≠ 0
+  fin : i.finEpoch.toNat * i.spe.toNat < 2 ^ 64
+
+macro "block_close" : tactic => `(tactic| (
+  all_goals (try simp only [Spec.blockConds, Spec.blockExpectedProposer, blockFinish] at *)
+  all_goals (try gossip_norm)
+  all_goals (try simp only [epochStartSlotOr0_toNat _ _ ‹_› ‹_›] at *)
+  all_goals (first
+    | (simp_all; done)
+    | (simp_all; omega)
+    | (cases hs : (BlockIn.sig ‹_›) <;> cases hd : (BlockIn.digestOk ‹_›) <;> simp_all; done)
+    | (split <;> simp_all; done)
+    | (split <;> simp_all <;> omega)
+    | (split <;> (try split) <;> simp_all; done)
+    | (split <;> (try split) <;> simp_all <;> omega))))
+
+theorem block_accept_iff_all_conditions (i : BlockIn) (h : WFBlock i) :
+    (validateBlock i).verdict = .ACCEPT ↔ allHold (Spec.blockConds i) = true := by
+  obtain ⟨hspe, hov⟩ := h
+  have hmono := div_mono_not_lt i.parentSlot.toNat i.slot.toNat i.spe.toNat
+  fun_cases validateBlock i
+  block_close
+
+theorem block_violated_never_accept (i : BlockIn) (h : WFBlock i) (c : Cond) (hc : c ∈ Spec.blockConds i)
+    (hv : c.holds = false) : (validateBlock i).verdict ≠ .ACCEPT :=
+  never_accept_of_iff (block_accept_iff_all_conditions i h) hc hv
+
+theorem block_timing_failures_ignore (i : BlockIn) (h : WFBlock i) :
+    allHold (Spec.blockConds i) = false → onlyTimingFails (Spec.blockConds i) = true →
+    (validateBlock i).verdict = .IGNORE := by
+  obtain ⟨hspe, hov⟩ := h
+  have hmono := div_mono_not_lt i.parentSlot.toNat i.slot.toNat i.spe.toNat
+  fun_cases validateBlock i
+  block_close
+
+theorem block_marks_only_on_accept (i : BlockIn) :
+    (validateBlock i).marks ≠ [] → (validateBlock i).verdict = .ACCEPT := by
+  fun_cases validateBlock i
+  all_goals (first | (simp_all [ign, rej, acc]; done)
+                   | (unfold blockFinish; split <;> (try split) <;> simp_all [ign, rej, acc]))
+
+/-- non-vacuity: an honest block on a consistent view is ACCEPTed and marked; a wrong proposer is REJECTed
+without a mark (before repair `831842f` the second record returned REJECT *with* `MarkBlock`). -/
+def blockOk : BlockIn :=
+  { spe := 8, slot := 26, proposer := 38, maxSlot := 26, seen := false, parentKnown := true, parentSlot := 25,
+    finEpoch := 2, finSub := .yes, parentEpc := true, pubkeyKnown := true, digestOk := true, sig := true,
+    sameEpochProposer := some 38, towards := true, slotEpc := true, slotProposer := some 38 }
+example : WFBlock blockOk := ⟨by decide, by decide⟩
+example : (validateBlock blockOk).verdict = .ACCEPT ∧ (validateBlock blockOk).marks.length = 1 := by decide
+example : (validateBlock { blockOk with proposer := 39 }).verdict = .REJECT ∧
+    (validateBlock { blockOk with proposer := 39 }).marks = [] := by decide
+
+/-! ### beacon_attestation_{subnet_id} -/
+
+/-- assumptions on the answer record:
+* `spe`   `SLOTS_PER_EPOCH ≠ 0`
+* `ckpt`  chain-view consistency: if the target is the checkpoint block of the vote, it is an ancestor of it
+* `bits`  SSZ: every set bit of a bitlist lies below its length
+* `cps`   `committees_per_slot * SLOTS_PER_EPOCH + index` fits 64 bits (`committees_per_slot ≤ 64`) -/
+structure WFAtt (i : AttIn) : Prop where
+  spe : i.spe ≠ 0
+  ckpt : i.targetIsCkpt = true → i.targetSub = .yes
+  bits : ∀ p ∈ i.setBits, p < i.bitLen
+  cps : i.cps.toNat * i.spe.toNat + i.index.toNat < 2 ^ 64
+
+theorem att_marks_only_on_accept (i : AttIn) :
+    (validateAttestation i).marks ≠ [] → (validateAttestation i).verdict = .ACCEPT := by
+  fun_cases validateAttestation i
+  all_goals (try (have hfc := finCheck_some ‹finCheck _ _ _ _ _ = some _›; subst hfc))
+  all_goals (simp_all [ign, rej, acc])
+
+theorem att_timing_failures_ignore (i : AttIn) (h : WFAtt i) :
+    allHold (Spec.attConds .phase0 i) = false → onlyTimingFails (Spec.attConds .phase0 i) = true →
+    (validateAttestation i).verdict = .IGNORE := by
+  have hwin := slotSpanOk_iff i.minSlot i.maxSlot i.slot ATTESTATION_PROPAGATION_SLOT_RANGE
+  have h32 : ATTESTATION_PROPAGATION_SLOT_RANGE.toNat = 32 := by decide
+  rw [h32] at hwin
+  obtain ⟨hspe, hck, hbits, hcps⟩ := h
+  have hess := epochStartSlot_ok_iff i.spe i.targetEpoch hspe
+  have hsub : i.index.toNat < i.cps.toNat → _ := fun hi => subnet_eq_spec i.spe i.cps i.slot i.index hspe hi hcps
+  have hone : i.setBits.length = 1 → ∃ p, i.setBits = [p] := List.length_eq_one_iff.mp
+  have hslot := i.slot.toNat_lt
+  have hdm := Nat.div_mul_le_self i.slot.toNat i.spe.toNat
+  fun_cases validateAttestation i
+  all_goals (try (have hfc := finCheck_some ‹finCheck _ _ _ _ _ = some _›; subst hfc))
+  all_goals (try (have hfn := (finCheck_none_iff _ _ _ _ _).mp ‹finCheck _ _ _ _ _ = none›))
+  all_goals (try simp only [Spec.attConds, Spec.attWindow] at *)
+  all_goals (try gossip_norm)
+  all_goals (first | (simp_all; done) | (simp_all; omega) | (rcases hfn with hfn | hfn <;> simp_all <;> omega) | skip)
+  -- remaining: `EpochStartSlot` overflowed, so the target epoch cannot be the epoch of the slot
+  all_goals (
+    have hov : ¬ (i.targetEpoch.toNat * i.spe.toNat < 2 ^ 64) := by
+      intro hlt; obtain ⟨s, hs⟩ := hess.mpr hlt
+      exact ‹∀ a : UInt64, EpochStartSlot (specOf i.spe) i.targetEpoch = Res.ok a → False› s hs
+    intro _ ht
+    simp_all
+    omega)
+
+/-- FULL STATEMENT (false for the current code, see `att_accepts_non_checkpoint_target`):
+`(validateAttestation i).verdict = .ACCEPT ↔ allHold (Spec.attConds .phase0 i)` for every well-formed `i`.
+PROVED: the same under the extra hypothesis `hckpt` — whenever the target root is an ancestor of the voted
+block it is the *checkpoint* block of the target epoch. Missing: `gossipval` only asks
+`InSubtree(target.root, beacon_block_root)` (known finding `target-not-checkpoint`). -/
+theorem att_accept_iff_all_conditions_partial (i : AttIn) (h : WFAtt i)
+    (hckpt : i.targetSub = .yes → i.targetIsCkpt = true) :
+    (validateAttestation i).verdict = .ACCEPT ↔ allHold (Spec.attConds .phase0 i) = true := by
+  have hwin := slotSpanOk_iff i.minSlot i.maxSlot i.slot ATTESTATION_PROPAGATION_SLOT_RANGE
+  have h32 : ATTESTATION_PROPAGATION_SLOT_RANGE.toNat = 32 := by decide
+  rw [h32] at hwin
+  obtain ⟨hspe, hck, hbits, hcps⟩ := h
+  have hess := epochStartSlot_ok_iff i.spe i.targetEpoch hspe
+  have hsub : i.index.toNat < i.cps.toNat → _ := fun hi => subnet_eq_spec i.spe i.cps i.slot i.index hspe hi hcps
+  have hone : i.setBits.length = 1 → ∃ p, i.setBits = [p] := List.length_eq_one_iff.mp
+  have hslot := i.slot.toNat_lt
+  have hdm := Nat.div_mul_le_self i.slot.toNat i.spe.toNat
+  fun_cases validateAttestation i
+  all_goals (try (have hfs := finCheck_some_cond ‹finCheck _ _ _ _ _ = some _›))
+  all_goals (try (have hfc := finCheck_some ‹finCheck _ _ _ _ _ = some _›; subst hfc))
+  all_goals (try (have hfn := (finCheck_none_iff _ _ _ _ _).mp ‹finCheck _ _ _ _ _ = none›))
+  all_goals (try simp only [Spec.attConds, Spec.attWindow] at *)
+  all_goals (try gossip_norm)
+  all_goals (first | (simp_all; done) | (simp_all; omega) | (rcases hfn with hfn | hfn <;> simp_all <;> omega) | skip)
+  all_goals (simp_all)
+  all_goals (intros; first | omega | (simp_all; omega) | (cases hb : i.blockIsFin <;> simp_all [finCheck, UInt64.lt_iff_toNat_lt] <;> omega))
+
+theorem att_violated_never_accept_partial (i : AttIn) (h : WFAtt i)
+    (hckpt : i.targetSub = .yes → i.targetIsCkpt = true) (c : Cond) (hc : c ∈ Spec.attConds .phase0 i)
+    (hv : c.holds = false) : (validateAttestation i).verdict ≠ .ACCEPT :=
+  never_accept_of_iff (att_accept_iff_all_conditions_partial i h hckpt) hc hv
+
+/-- an honest attestation on a consistent view (non-vacuity of `WFAtt` and of `hckpt`) -/
+def attOk : AttIn :=
+  { spe := 8, slot := 26, index := 1, targetEpoch := 3, bitLen := 4, setBits := [2], subnet := 5, blockIsFin := false,
+    minSlot := 26, maxSlot := 26, bad := false, blockKnown := true, blockSlot := 25, targetSub := .yes,
+    targetIsCkpt := true, finSub := .yes, finEpoch := 1, towards := true, epc := true, cps := 2,
+    committee := [22, 4, 46, 43], seen := false, domainOk := true, sig := true }
+example : WFAtt attOk := ⟨by decide, by decide, by decide, by decide⟩
+example : (validateAttestation attOk).verdict = .ACCEPT ∧ allHold (Spec.attConds .phase0 attOk) = true := by decide
+
+/-- NEGATION of the full `accept_iff` / `violated_never_accept` for attestations, on a concrete well-formed
+record (replayed on the Go code by mode `c12`, lines with `tsub=yes tckpt=0`): the target root is an ancestor of the
+voted block but not the checkpoint block of the target epoch — the `[REJECT]` condition fails, the code ACCEPTs. -/
+theorem att_accepts_non_checkpoint_target :
+    ∃ i, WFAtt i ∧ (validateAttestation i).verdict = .ACCEPT ∧ allHold (Spec.attConds .phase0 i) = false :=
+  ⟨{ attOk with targetIsCkpt := false }, ⟨by decide, by decide, by decide, by decide⟩, by decide, by decide⟩
+
+/-- deneb (EIP-7045) changed the propagation window; `gossipval` implements the phase0 window only. On a
+`SLOTS_PER_EPOCH = 8` network an attestation 20 slots old is inside the phase0 window (ACCEPTed) but two epochs old,
+outside the deneb window (known finding `eip7045-window`). -/
+theorem att_deneb_window_differs :
+    ∃ i, WFAtt i ∧ (validateAttestation i).verdict = .ACCEPT ∧ allHold (Spec.attConds .deneb i) = false :=
+  ⟨{ attOk with minSlot := 46, maxSlot := 46 }, ⟨by decide, by decide, by decide, by decide⟩, by decide, by decide⟩
+
 end Zrnt.Proofs.C12
